@@ -248,6 +248,17 @@ func (f *Frame) callFn0(st *State, r *Term, callee *ssa.Function, bindings []Val
 			}
 		}
 	}
+	expand := false
+	if tc := f.top().contract; tc != nil && ct != nil {
+		for _, k := range tc.Expand {
+			if k == funcKey(target) && len(target.Blocks) > 0 && f.depth < maxInlineDepth && !f.onStack(target) {
+				expand = true
+			}
+		}
+	}
+	if expand {
+		return f.inlineCall(st, r, target, tmap, bindings, args)
+	}
 	if ct != nil && !ct.Inline && !(f.depth == 0 && false) {
 		return f.contractCall(st, r, target, tmap, ct, bindings, args, pos)
 	}
